@@ -213,8 +213,8 @@ class Hist:
                 continue
             last = max(kids, key=lambda c: term_seq.get(c, -1))
             if (final[last].get('data') or {}).get('$is_event_processed'):
-                return True
-        return False
+                return t['kind']
+        return None
 
     def interleaving_signature(self):
         return digest([(e['t'], e.get('nid') or e.get('what') or e.get('action'), e.get('new') or e.get('state')) for e in self.R if e['t'] in ('state', 'emit', 'action')])
